@@ -10,7 +10,7 @@ from ..cfg import cfg_of
 from ..flow import TagFlow
 from ..model import AnalysisError, FunctionInfo, bind_args
 from ..roles import roles_of
-from ..terms import call_name, canon, cmp_normal, conjuncts, const_num, guard_canon, linear, norm_stmt, state_key
+from ..terms import guard_extra, call_name, canon, cmp_normal, conjuncts, const_num, guard_canon, linear, norm_stmt, state_key
 from .c12 import ProvPolicy
 from .common import attr_stores, iter_stores, reaching_assignments, self_attr_of
 
@@ -283,7 +283,7 @@ def check(ctx):
                 g = guard_canon(prog, fn, s)
                 lvl = ("(OS[uncertainty_handling_level] <= 0)", "not (0 < OS[uncertainty_handling_level])")
                 if any(x in lvl for x in g):
-                    det_extra.append((fn, s, [x for x in g if x not in lvl]))
+                    det_extra.append((fn, s, guard_extra(prog, fn, s, lvl)))
                     det.append((fn, s))
     ctx.check(bool(det), opt, det[0][1] if det else None, "self.fsd = 0 on the deterministic branch", "fsd is not set to 0 for deterministic targets", construct="<missing deterministic fsd = 0>")
     if det_extra and all(ex for _f, _s, ex in det_extra):
